@@ -4,6 +4,7 @@ package main
 
 import (
 	"fmt"
+	"go/token"
 	"strings"
 
 	"golang.org/x/tools/go/ssa"
@@ -18,6 +19,22 @@ func round2Hooks2(c *Ctx, id string) {
 		filterListFaithful(c, "C26.e filter-list-faithful")
 	case "C42":
 		filterListFaithful(c, "C42.c filter-list-faithful")
+	case "C09":
+		expiryReadsRecordOnly(c, "C09.g expiry-reads-record-only")
+		pubackCompletes(c, "C09.h puback-completes")
+	case "C10":
+		expiryReadsRecordOnly(c, "C10.c expiry-reads-record-only")
+		restoreAsStored(c, "C10.d restore-as-stored")
+	case "C25":
+		expiryReadsRecordOnly(c, "C25.e expiry-reads-record-only")
+	case "C12":
+		resendOrderByCreation(c, "C12.d resend-order-by-creation")
+		releaseAfterEveryPacket(c, "C12.e release-after-every-packet")
+		restoreAsStored(c, "C12.f restore-as-stored")
+	case "C11":
+		releaseAfterEveryPacket(c, "C11.e release-after-every-packet")
+	case "C20":
+		restoreAsStored(c, "C20.g restore-as-stored")
 	}
 }
 
@@ -65,6 +82,175 @@ func filterListFaithful(c *Ctx, rule string) {
 		for _, a := range appends {
 			_, again := (&PathQuery{Fn: f, From: a, Target: isAppend, Barrier: func(x ssa.Instruction) bool { return x == head.Instrs[0] }}).Find()
 			c.ob(rule, fmt.Sprintf("%s: one iteration appends at most one element (%s)", fname(f), guardKey(a)), c.pos(a.Pos()), again == nil, "")
+		}
+	}
+}
+
+// expiryReadsRecordOnly: whether a stored record expires is decided from the record itself (its Expiry, Created and
+// the ProtocolVersion it was published with), the clock and the server maximum. The receiving client's properties
+// play no part: acknowledgement records (PUBREC/PUBREL markers, built by buildAck with version 0) must not be swept
+// because the client happens to speak MQTT 5.
+func expiryReadsRecordOnly(c *Ctx, rule string) {
+	f := c.fn("mqtt", "(*Client).ClearExpiredInflights")
+	if f == nil {
+		return
+	}
+	bad := map[string]bool{}
+	n := 0
+	for _, b := range f.Blocks {
+		if len(b.Instrs) == 0 {
+			continue
+		}
+		ifi, ok := b.Instrs[len(b.Instrs)-1].(*ssa.If)
+		if !ok {
+			continue
+		}
+		n++
+		seen := map[ssa.Value]bool{}
+		var walk func(v ssa.Value, d int)
+		walk = func(v ssa.Value, d int) {
+			if v == nil || seen[v] || d > 14 {
+				return
+			}
+			seen[v] = true
+			if u, isU := v.(*ssa.UnOp); isU && u.Op == token.MUL {
+				if p, isCl := clientPath(u.X); isCl {
+					if r, isParam := rootOfAddr(u.X).(*ssa.Parameter); isParam && canonName(r, r.Name()) == "cl" && !strings.HasPrefix(p, "State.Inflight") {
+						bad["cl."+p] = true
+					}
+				}
+			}
+			if ph, isPhi := v.(*ssa.Phi); isPhi {
+				for _, e := range ph.Edges {
+					walk(e, d+1)
+				}
+				return
+			}
+			if ins, isIns := v.(ssa.Instruction); isIns {
+				for _, op := range ins.Operands(nil) {
+					if *op != nil {
+						walk(*op, d+1)
+					}
+				}
+			}
+		}
+		walk(ifi.Cond, 0)
+	}
+	var bs []string
+	for k := range bad {
+		bs = append(bs, k)
+	}
+	c.ob(rule, "(*mqtt.Client).ClearExpiredInflights decides from the record, the clock and the server maximum only (no property of the receiving client)", c.pos(f.Pos()), len(bad) == 0 && n > 0,
+		"conditions read "+strings.Join(bs, ", ")+": acknowledgement markers (version 0, Expiry = now + maximum) of an MQTT 5 client are swept, the packet id is freed and the QoS 2 exchange breaks")
+}
+
+// pubackCompletes: any PUBACK for a known packet id completes the QoS 1 exchange: on every path of processPuback on
+// which the record was found, the record is deleted (whatever reason code the PUBACK carries).
+func pubackCompletes(c *Ctx, rule string) {
+	f := c.fn("mqtt", "(*Server).processPuback")
+	if f == nil {
+		return
+	}
+	c.noPath(rule, "(*mqtt.Server).processPuback: a PUBACK for a known id always removes the in-flight record (reason code irrelevant)", f, nil, anyReturn, isNamed(fnInflDelete),
+		[]Assume{inflGetAssume(true)}, "a record kept after its PUBACK is resent with DUP on the next resume although the client acknowledged it")
+}
+
+func inflGetAssume(found bool) Assume {
+	return Assume{Match: func(t string) bool {
+		return strings.HasPrefix(t, "(*mqtt.Inflight).Get(cl.State.Inflight, pk.PacketID)") && strings.HasSuffix(t, "#1")
+	}, Truth: found}
+}
+
+// resendOrderByCreation: the order in which stored messages are released or resent is the order of their creation:
+// GetAll's comparator compares the Created time (packet ids wrap at 65535 and are not an order).
+func resendOrderByCreation(c *Ctx, rule string) {
+	f := c.fn("mqtt", "(*Inflight).GetAll")
+	if f == nil || len(f.AnonFuncs) == 0 {
+		return
+	}
+	less := f.AnonFuncs[0]
+	created := false
+	for _, ins := range instrs(less) {
+		if fa, ok := ins.(*ssa.FieldAddr); ok && fieldName(fa.X.Type(), fa.Field) == "Created" {
+			created = true
+		}
+		if fl, ok := ins.(*ssa.Field); ok && fieldName(fl.X.Type(), fl.Field) == "Created" {
+			created = true
+		}
+	}
+	c.ob(rule, "(*mqtt.Inflight).GetAll orders the records by their creation time", c.pos(less.Pos()), created,
+		"the comparator does not read Created: ordering by packet id breaks when the 16-bit id counter wraps (the newer message gets the smaller id)")
+}
+
+// releaseAfterEveryPacket: processPacket ends, for every packet type handled without error, with the test that
+// releases a message held back by flow control: PUBREL/PUBCOMP/PUBREC free send quota just like PUBACK does.
+func releaseAfterEveryPacket(c *Ctx, rule string) {
+	f := c.fn("mqtt", "(*Server).processPacket")
+	if f == nil {
+		return
+	}
+	var quota ssa.Instruction
+	for _, b := range f.Blocks {
+		if t, _, ok := condOf(b); ok && strings.Contains(t, "cl.State.Inflight.sendQuota") {
+			quota = b.Instrs[len(b.Instrs)-1]
+		}
+	}
+	if quota == nil {
+		for _, ci := range c.callsNamed(f, "(*mqtt.Inflight).NextImmediate") {
+			quota = ci
+		}
+	}
+	if quota == nil {
+		c.ob(rule, "(*mqtt.Server).processPacket tests for a held-back message to release", c.pos(f.Pos()), false, "release test not found")
+		return
+	}
+	n := 0
+	for _, name := range []string{"(*mqtt.Server).processPuback", "(*mqtt.Server).processPubrec", "(*mqtt.Server).processPubrel", "(*mqtt.Server).processPubcomp"} {
+		for _, ci := range c.callsNamed(f, name) {
+			n++
+			_, hit := (&PathQuery{Fn: f, From: ci, Target: nilErrReturn, Barrier: func(x ssa.Instruction) bool {
+				if x == quota {
+					return true
+				}
+				// the release test starts with "is anything stored?" / "is there quota?" / NextImmediate
+				if cc := callOf(x); cc != nil {
+					n := cname(cc)
+					if n == "(*mqtt.Inflight).NextImmediate" || (n == "(*mqtt.Inflight).Len" && strings.HasSuffix(describe(cc.Args[0]), "cl.State.Inflight")) ||
+						(n == "sync/atomic.LoadInt32" && strings.HasSuffix(describe(cc.Args[0]), "Inflight.sendQuota")) {
+						return true
+					}
+				}
+				return false
+			}}).Find()
+			c.ob(rule, fmt.Sprintf("(*mqtt.Server).processPacket: after %s returned without error the held-back-message release test runs", strings.TrimPrefix(name, "(*mqtt.Server).")), c.pos(ci.Pos()), hit == nil,
+				"the handler freed send quota; returning before the release leaves the held-back message waiting while newer messages are sent at once")
+		}
+	}
+	c.floor(rule+" acknowledgement handlers dispatched from processPacket", n, 4)
+}
+
+// restoreAsStored: loadInflight puts the restored packet into the in-flight map exactly as Message.ToPacket produced
+// it (creation time, packet id, type): nothing is rewritten or filtered between decoding and Inflight.Set.
+func restoreAsStored(c *Ctx, rule string) {
+	f := c.fn("mqtt", "(*Server).loadInflight")
+	if f == nil {
+		return
+	}
+	sets := c.callsNamed(f, fnInflSet)
+	c.floor(rule+" Inflight.Set in loadInflight", len(sets), 1)
+	for _, ci := range sets {
+		d := describe(ci.Common().Args[1])
+		c.ob(rule, "(*mqtt.Server).loadInflight stores the packet exactly as Message.ToPacket built it", c.pos(ci.Pos()), strings.HasPrefix(d, "(*storage.Message).ToPacket(") || strings.HasPrefix(d, "(*hooks/storage.Message).ToPacket("),
+			"stored value "+d+": a field rewritten after decoding (e.g. Created = now) destroys the resend order and the expiry of the restored messages")
+		// every stored record is restored: the Set is guarded only by the session lookup
+		for _, ed := range edgeDoms(ci) {
+			t, _, ok := condOf(ed.b)
+			if !ok {
+				continue
+			}
+			okGuard := strings.Contains(t, "(*mqtt.Clients).Get(") || strings.Contains(t, "rangeindex") || strings.Contains(t, "builtin.len(v)")
+			c.ob(rule, fmt.Sprintf("(*mqtt.Server).loadInflight restores every stored record of a restored session (guard %s)", t), c.pos(ci.Pos()), okGuard,
+				"records are filtered by "+t+": the client's pending acknowledgement markers are dropped and their packet ids handed out again")
 		}
 	}
 }
